@@ -13,7 +13,8 @@ import (
 )
 
 var (
-	ErrInvalidLength = errors.New("invalid signature length")
+	ErrInvalidLength     = errors.New("invalid signature length")
+	ErrInvalidRecoveryID = errors.New("invalid signature recovery id")
 )
 
 type Signer interface {
@@ -46,9 +47,16 @@ func Recover(signature, data []byte) (*ecdsa.PublicKey, error) {
 	if len(signature) != 65 {
 		return nil, ErrInvalidLength
 	}
+	// Only the recovery ids that Sign emits (27 + 0..3) are accepted: btcec
+	// also understands 31..34 (the same key in compressed form), which would
+	// give every signature a second valid encoding.
+	v := signature[64]
+	if v < 27 || v > 30 {
+		return nil, ErrInvalidRecoveryID
+	}
 	// Convert to btcec input format with 'recovery id' v at the beginning.
 	btcsig := make([]byte, 65)
-	btcsig[0] = signature[64]
+	btcsig[0] = v
 	copy(btcsig[1:], signature)
 
 	hash, err := hashWithEthereumPrefix(data)
